@@ -40,4 +40,23 @@ def JoinAccept.toSpec (d : JoinAccept) : Spec.JoinAcceptDesc :=
     rxDelay := d.rxDelay
     cfList := d.cFList.map CfList.toSpec }
 
+/-- what the accessors of a parsed data frame say, in the vocabulary of the specification -/
+def DataView.toSpec (v : DataView) : Spec.DataView :=
+  { ftype := v.frameType, uplink := v.isUplink, confirmed := v.isConfirmed
+    devAddr := UInt32.ofNat (leValue v.devAddr)
+    fctrl := v.fctrlRaw, adr := v.adr, adrAckReq := v.adrAckReq, ack := v.ack, fPending := v.fPending
+    foptsLen := v.fOptsLen, fcnt16 := v.fcnt, fopts := v.fOpts, port := v.fPort, frm := v.frm, mic := v.mic }
+
+def JoinRequestView.toSpec (v : JoinRequestView) : Spec.JoinRequestView :=
+  { joinEui := UInt64.ofNat (leValue v.joinEui), devEui := UInt64.ofNat (leValue v.devEui)
+    devNonce := UInt16.ofNat (leValue v.devNonce), mic := v.mic }
+
+def CfListView.toSpec : CfListView → Spec.CfListView
+  | .dynamicChannel fs => .dynamic (fs.map leValue)
+  | .fixedChannel m => .fixed (leValue m)
+
+def JoinAcceptView.toSpec (v : JoinAcceptView) : Spec.JoinAcceptView :=
+  { joinNonce := leValue v.joinNonce, netId := leValue v.netId, devAddr := UInt32.ofNat (leValue v.devAddr)
+    dlSettings := v.dlSettings, rxDelay := v.rxDelay, cfList := v.cFList.map CfListView.toSpec, mic := v.mic }
+
 end Lora.Codec
